@@ -7,8 +7,10 @@ index set of the definition; what a floating-point implementation may answer dif
 (two-sided knife-edge rule), which is zero when the arithmetic is exact (integer-valued records with representable
 fraction*total, for the cumulative squares and for the custom measure's own output), so strict vs non-strict inequalities
 are decided there. Arias comparisons always keep a band (the rounding of the constant pi/(2*9.81)*dt is not fixed).
+Every call is judged against private copies of its arguments taken AT CALL ENTRY (pre hooks; the object's derived caches
+are never read) and every array argument is compared bit-for-bit after the call (purity clause).
 The driver adds the relations between executions (scaling, zero prepending, nesting, monotonicity, se pair vs scalar,
-object with a history vs fresh object).
+object with a history vs fresh object, same call repeated after another input of the same shape).
 """
 import itertools
 import traceback
@@ -23,48 +25,65 @@ from vf.oracles import durations as O
 PROP_ID = 'C10'
 TECHNIQUE = ('runtime post-condition monitors with an exact-integer reference of the definition (two-sided at knife edges, '
              'strict where the arithmetic is exact) + offline relations over the recorded results')
-RULE = ('a case = (record, dt, 3-4 fraction pairs incl. a nested pair, threshold specs, custom measures, scale exponent, '
-        'number of prepended zeros, optional object history). Records: shared generator classes (noise, walk, sine, quake, '
-        'impulse, step, const, zero-padded, integer-valued ...) with n in [2, 3000], plus records built for exact ties '
-        '(constant +-c of length 16m / 16m+1, {-1,0,1} records with a multiple of 16 non-zero samples, small integers), as '
-        'float64 / float32 / int64 / list / tuple; dt nice, 1/k, log-uniform or a power of two; fractions (0.05,0.95), '
-        '(0.05,0.75), dyadic k/16, powers of two, uniform; thresholds 0, equal to some |a_i|, between the two largest '
-        'distinct |a_i| (one exceeder), fractions of the peak, above the peak. History cases build the AccSignal, read '
-        'derived quantities / call the deprecated generate_* methods / call the duration functions, then replace, filter '
-        'or add to the values before the monitored calls. Exhaustive part: every sequence over {-2..2} of length 2..5 '
-        '(quick) / 2..6 (thorough). distinct = digest of the complete case; non-trivial = record with a non-zero sample.')
-ASSUMPTIONS = ['NaN/inf-free real records held in numpy arrays (array-level functions) or AccSignal objects',
-               '0 < start < end < 1, threshold >= 0, se in {True, False}',
+RULE = ('a case = (record, dt, 3-5 fraction pairs incl. a nested pair and sometimes start=0 / end=1 exactly, threshold specs, '
+        'custom measures, scale exponent, number of prepended zeros, optional object history with later rounds). Records: '
+        'shared generator classes (noise, walk, sine, quake, impulse, step, const, zero-padded, integer-valued ...) with n in '
+        '[1, 3000] plus a few records past 2**16 per run, records built for exact ties (constant +-c of length 16m / 16m+1, '
+        '{-1,0,1} records with a multiple of 16 non-zero samples, small integers), lengths 1..4 and 2**k-1, 2**k, 2**k+1, '
+        'plateaus / zeros / the extreme at the first or last sample, sign change right before the end; amplitudes 1e-12..1e12 '
+        'and small signals on offsets up to 1e6; containers/dtypes float64, float32, int64, int32, int16, int8, uint8, uint16 '
+        '(both without overflow and using the whole range incl. the minimum), lists / tuples of floats, of ints, mixed, '
+        'non-contiguous (strided, reversed) and read-only arrays; dt nice, 1/k, log-uniform 1e-3..1, powers of two, 1e-9..1e-3, '
+        '1..1e3, as float / np.float64 / int; fractions (0.05,0.95), (0.05,0.75), dyadic k/16, powers of two, uniform, as '
+        'Python floats and np.float64, positional / keyword / defaults; thresholds 0, equal to some |a_i|, between the two '
+        'largest distinct |a_i| (one exceeder), fractions of the peak, above the peak, as float / np.float64 / int. One '
+        'argument array is reused by every array-level call of a case and compared bit-for-bit after each call; every call '
+        'is judged against a private copy of its arguments taken at call entry. History cases build the AccSignal, read '
+        'derived quantities / regenerate them with non-default options / call the deprecated generate_* methods / call the '
+        'duration functions, then replace (same, shorter, longer, strided or read-only array), filter, add to, correct in '
+        'place (rebase_displacement, set_zero_residual_*, remove_rolling_average, direct edit of .values) or continue with a '
+        'twin built from the values; up to two later rounds mutate again and repeat the monitored calls in shuffled order '
+        'with repeats, each compared with a fresh object. A second record of the same shape is processed between two '
+        'identical calls (process-wide state). Exhaustive part: every sequence over {-2..2} of length 1..5 (quick) / 1..6 '
+        '(thorough) as float64 / int64 / int8 in plain, read-only, strided and reversed layout. distinct = digest of the '
+        'complete case; non-trivial = record with a non-zero sample.')
+ASSUMPTIONS = ['NaN/inf-free real records (numpy arrays of any real dtype, lists, tuples) or AccSignal objects',
+               '0 <= start < end <= 1 (the boundary values 0 and 1 are judged by the same definition), threshold >= 0, '
+               'se in {True, False}',
                'records without a sample strictly inside the band are outside the statement (IndexError there is counted, '
                'not judged)',
-               'float32 records are driven with float32-representable thresholds (numpy compares a float32 array with a '
-               'Python float in float32)',
+               'float32 records are driven with float32-representable thresholds and Python-float fractions (numpy compares / '
+               'multiplies a float32 array with a Python float in float32, with np.float64 in float64: knife edges move)',
                'zero-prepending shift is judged for the Arias measure only when the record starts with a zero sample (the '
                'trapezoid between the last added zero and a non-zero first sample adds intensity)',
                'a floating-point evaluation may resolve samples within 4(n+8)u of a bound either way (u = unit roundoff of '
                'the record dtype); exact ties are decided strictly when every operation is exact',
+               'failures of the history operations themselves (filters on too short records, np.trapz in generate_*_stats, '
+               'in-place corrections on read-only data) are observations, not C10 verdicts',
                'oracle vf/oracles/durations.py is correct']
-EXHAUSTIVE = {'quick': 'all sequences over {-2,-1,0,1,2} of length 2..5 x fractions {(1/4,3/4),(1/8,1/2),(1/2,15/16)} x '
+EXHAUSTIVE = {'quick': 'all sequences over {-2,-1,0,1,2} of length 1..5 x fractions {(1/4,3/4),(1/8,1/2),(1/2,15/16)} x '
                        'thresholds {0,1,2} (array-level, Arias with dt=0.5, custom cumsum|x|, bracketed)',
-              'thorough': 'all sequences over {-2,-1,0,1,2} of length 2..6 x fractions {(1/4,3/4),(1/8,1/2),(1/2,15/16)} x '
+              'thorough': 'all sequences over {-2,-1,0,1,2} of length 1..6 x fractions {(1/4,3/4),(1/8,1/2),(1/2,15/16)} x '
                           'thresholds {0,1,2} (array-level, Arias with dt=0.5, custom cumsum|x|, bracketed)'}
-_MIN_QUICK = {   # ~50 % of what a normal quick run reaches (seeds 0-3)
-    'sigvals.start/end==definition': 14000, 'sigvals.duration==definition': 17000,
-    'sigdur.arias.start/end==definition': 15000, 'sigdur.arias.duration==definition': 12000,
-    'sigdur.custom.start/end==definition': 12000, 'sigdur.custom.duration==definition': 8500,
-    'alias.significant_duration.duration==definition': 8500,
-    'sig.0<=start<=end<=T': 85000, 'sig.lower-tie-excluded(exact)': 5000, 'sig.upper-tie-excluded(exact)': 6500,
-    'brac.start/end==definition': 25000, 'brac.duration==definition': 30000, 'brac.none-exceeds->(None,None)/0': 16000,
-    'alias.bracketed_duration.duration==definition': 6500, 'brac.threshold==|a_i| decided strictly': 30000,
-    'brac.single-exceeder(se=True)': 5000, 'brac.single-exceeder(se=False)': 7500,
-    'rel.se-pair-difference==scalar': 45000, 'rel.scale-pow2-invariant': 7000, 'rel.scale-any-invariant': 900,
-    'rel.zero-prepend-shift': 3500, 'rel.nested-fractions': 10000, 'rel.brac-monotone-threshold': 14000,
-    'rel.brac-joint-scale-invariant': 11000, 'rel.history==fresh': 5500}
-_THOROUGH_FACTOR = {'rel.history==fresh': 15, 'rel.scale-any-invariant': 15, 'rel.zero-prepend-shift': 15}
+_MIN_QUICK = {   # ~50 % of what a normal quick run reaches (minimum over seeds 0-3)
+    'sigvals.start/end==definition': 19000, 'sigvals.duration==definition': 20000,
+    'sigdur.arias.start/end==definition': 22000, 'sigdur.arias.duration==definition': 15000,
+    'sigdur.custom.start/end==definition': 14500, 'sigdur.custom.duration==definition': 11000,
+    'alias.significant_duration.duration==definition': 10000,
+    'sig.0<=start<=end<=T': 110000, 'sig.lower-tie-excluded(exact)': 5000, 'sig.upper-tie-excluded(exact)': 7500,
+    'sig.boundary-fraction(start=0|end=1)': 2000,
+    'brac.start/end==definition': 35000, 'brac.duration==definition': 41000, 'brac.none-exceeds->(None,None)/0': 21000,
+    'alias.bracketed_duration.duration==definition': 8500, 'brac.threshold==|a_i| decided strictly': 39000,
+    'brac.single-exceeder(se=True)': 9000, 'brac.single-exceeder(se=False)': 10500,
+    'purity.argument-unchanged': 220000,
+    'rel.se-pair-difference==scalar': 51000, 'rel.scale-pow2-invariant': 8500, 'rel.scale-any-invariant': 1200,
+    'rel.zero-prepend-shift': 4500, 'rel.nested-fractions': 14000, 'rel.brac-monotone-threshold': 17000,
+    'rel.brac-joint-scale-invariant': 14000, 'rel.history==fresh': 13000, 'rel.repeat-after-other-input': 2700}
+_THOROUGH_FACTOR = {}
 MIN_EVALS = {'quick': _MIN_QUICK, 'thorough': {k: v * _THOROUGH_FACTOR.get(k, 10) for k, v in _MIN_QUICK.items()}}
 
 CTX = None
-CURRENT = {'case': None, 'probe': False}
+CURRENT = {'case': None}
 HARNESS = {'crash': None}
 MEASURES = {}          # name -> callable(asig) (custom cumulative measures used by the workload)
 _FAIL = object()
@@ -194,13 +213,33 @@ def _clean(arr):
     return arr
 
 
-def check_sig(ctx, name, call, arr, dt, s, e, se, measure, result, im_vals=None):
-    """Post-condition of one significant-duration call. name: clause prefix."""
-    if CURRENT['probe']:
-        ctx.observe('%s: out-of-domain probe returned' % name)
+def _snap(a):
+    """Private copy of an array argument at call entry (None for non-arrays)."""
+    if isinstance(a, np.ndarray):
+        return np.array(a)
+    return None
+
+
+def _unchanged(snap, now):
+    now = np.asarray(now)
+    return snap.dtype == now.dtype and snap.shape == now.shape and snap.tobytes() == np.ascontiguousarray(now).tobytes()
+
+
+def _purity(ctx, call, snap, now, what):
+    if snap is None:
         return
+    ctx.check(_unchanged(snap, now), 'purity.argument-unchanged', lambda: _witness(call),
+              '%s: %s differs bit-for-bit from its value at call entry' % (call['fn'], what))
+
+
+def check_sig(ctx, name, call, arr, dt, s, e, se, measure, result, im_vals=None):
+    """Post-condition of one significant-duration call. name: clause prefix; arr: the record AT CALL ENTRY."""
     arr = _clean(arr)
-    if arr is None or not (0 < s < e < 1) or not (dt > 0):
+    try:
+        s, e, dt = float(s), float(e), float(dt)
+    except (TypeError, ValueError):
+        arr = None
+    if arr is None or not (0 <= s < e <= 1) or not (dt > 0):
         ctx.observe('%s: call outside the quantifier (record/fractions/dt)' % name)
         return
     if measure == 'custom' and _clean(im_vals) is None:
@@ -222,8 +261,8 @@ def check_sig(ctx, name, call, arr, dt, s, e, se, measure, result, im_vals=None)
         i0, i1 = _index_of(result[0], dt), _index_of(result[1], dt)
         okk = i0 is not None and i1 is not None and i0 in set(firsts) and i1 in lasts and i0 <= i1
         ctx.check(okk, clause, lambda: _witness(call, result),
-                  '%s(n=%d, dt=%r, start=%r, end=%r, se=True) -> %r (indices %r, %r); definition gives first in %s, last in %s'
-                  % (call['fn'], ref.n, dt, s, e, result, i0, i1, firsts[:5], sorted(lasts)[:5]))
+                  '%s(n=%d, %s, dt=%r, start=%r, end=%r, se=True) -> %r (indices %r, %r); definition gives first in %s, last in %s'
+                  % (call['fn'], ref.n, arr.dtype, dt, s, e, result, i0, i1, firsts[:5], sorted(lasts)[:5]))
         if okk:
             st, en = float(result[0]), float(result[1])
             ctx.check(0 <= st <= en <= dur_total * (1 + TIME_RTOL), 'sig.0<=start<=end<=T', lambda: _witness(call, result),
@@ -241,8 +280,8 @@ def check_sig(ctx, name, call, arr, dt, s, e, se, measure, result, im_vals=None)
                         okk = True
                         break
         ctx.check(okk, clause, lambda: _witness(call, result),
-                  '%s(n=%d, dt=%r, start=%r, end=%r) -> %r; definition gives first in %s, last in %s (x dt)'
-                  % (call['fn'], ref.n, dt, s, e, result, firsts[:5], sorted(lasts)[:5]))
+                  '%s(n=%d, %s, dt=%r, start=%r, end=%r) -> %r; definition gives first in %s, last in %s (x dt)'
+                  % (call['fn'], ref.n, arr.dtype, dt, s, e, result, firsts[:5], sorted(lasts)[:5]))
         if okk:
             ctx.check(0 <= got <= dur_total * (1 + TIME_RTOL), 'sig.0<=start<=end<=T', lambda: _witness(call, result),
                       '0 <= duration %r <= %r broken' % (got, dur_total))
@@ -253,15 +292,15 @@ def check_sig(ctx, name, call, arr, dt, s, e, se, measure, result, im_vals=None)
             ctx.ok('sig.upper-tie-excluded(exact)')
         if ref.n_amb:
             ctx.observe('sig: ambiguous (knife-edge) samples accepted two-sided')
+        if s == 0 or e == 1:
+            ctx.ok('sig.boundary-fraction(start=0|end=1)')
 
 
 def check_brac(ctx, name, call, arr, dt, threshold, se, result):
-    if CURRENT['probe']:
-        ctx.observe('%s: out-of-domain probe returned' % name)
-        return
     arr = _clean(arr)
     try:
         th = float(threshold)
+        dt = float(dt)
     except (TypeError, ValueError):
         th = float('nan')
     if arr is None or not (th >= 0) or not (dt > 0):
@@ -292,8 +331,8 @@ def check_brac(ctx, name, call, arr, dt, threshold, se, result):
         okk = g is not None and np.isfinite(g) and abs(g - (l * dt - f * dt)) <= TIME_RTOL * max(l * dt, dt) \
             and int(round(g / dt)) == l - f
     ctx.check(okk, clause, lambda: _witness(call, result),
-              '%s(n=%d, dt=%r, threshold=%r, se=%r) -> %r; first/last |a_i| > threshold at %d, %d (times %r, %r)'
-              % (call['fn'], len(vals), dt, th, se, result, f, l, f * dt, l * dt))
+              '%s(n=%d, %s, dt=%r, threshold=%r, se=%r) -> %r; first/last |a_i| > threshold at %d, %d (times %r, %r)'
+              % (call['fn'], len(vals), arr.dtype, dt, th, se, result, f, l, f * dt, l * dt))
     if okk:
         if th in (abs(v) for v in vals):
             ctx.ok('brac.threshold==|a_i| decided strictly')
@@ -337,47 +376,83 @@ def _measure_name(imf):
     return getattr(imf, '__name__', repr(imf))
 
 
-def _sig_context(args, kwargs):
+# -- pre hooks: everything the oracle uses is captured AT CALL ENTRY (private copies); the object's caches are never read
+@_guard
+def _pre_vals(args, kwargs):
+    motion = args[0] if len(args) > 0 else kwargs.get('motion')
+    return {'motion': _snap(motion)}
+
+
+@_guard
+def _pre_sig(args, kwargs):
     asig, s, e, imf, se = _parse_sig(args, kwargs)
-    arr = np.asarray(asig.values)
-    dt = asig.dt
+    st = {'values': np.array(asig.values), 'dt': asig.dt, 'im_vals': None}
+    if imf is not None:
+        with attach.paused():
+            try:
+                st['im_vals'] = np.array(imf(asig))
+            except Exception:
+                st['im_vals'] = None
+    return st
+
+
+@_guard
+def _pre_brac(args, kwargs):
+    asig = args[0] if len(args) > 0 else kwargs['asig']
+    return {'values': np.array(asig.values), 'dt': asig.dt}
+
+
+def _sig_context(args, kwargs, pre):
+    asig, s, e, imf, se = _parse_sig(args, kwargs)
+    arr = pre['values']
+    dt = pre['dt']
     if imf is None:
         measure, im_vals, mname, name = 'arias', None, None, 'sigdur.arias'
     else:
         measure, mname, name = 'custom', _measure_name(imf), 'sigdur.custom'
-        with attach.paused():
-            im_vals = np.array(imf(asig))
+        im_vals = pre['im_vals']
     call = {'fn': 'calc_sig_dur', 'values': arr, 'dt': dt, 'start': s, 'end': e, 'se': se, 'im': mname}
-    return name, call, arr, dt, s, e, se, measure, im_vals
+    return asig, name, call, arr, dt, s, e, se, measure, im_vals
+
+
+def _vals_record(motion, pre):
+    """The record at call entry: the snapshot for arrays, the (immutable or foreign) argument itself otherwise."""
+    return pre['motion'] if pre and pre.get('motion') is not None else motion
 
 
 @_guard
 def _post_vals(args, kwargs, result, pre):
     motion, dt, s, e, se = _parse_vals(args, kwargs)
-    call = {'fn': 'calc_sig_dur_vals', 'values': np.asarray(motion), 'dt': dt, 'start': s, 'end': e, 'se': se}
-    check_sig(CTX, 'sigvals', call, motion, dt, s, e, se, 'squares', result)
+    rec = _vals_record(motion, pre)
+    call = {'fn': 'calc_sig_dur_vals', 'values': np.asarray(rec), 'dt': dt, 'start': s, 'end': e, 'se': se}
+    _purity(CTX, call, pre and pre.get('motion'), motion, 'motion')
+    check_sig(CTX, 'sigvals', call, rec, dt, s, e, se, 'squares', result)
 
 
 @_guard
 def _post_alias(args, kwargs, result, pre):
     motion, dt, s, e, _ = _parse_vals(args, kwargs, with_se=False)
-    call = {'fn': 'calc_significant_duration', 'values': np.asarray(motion), 'dt': dt, 'start': s, 'end': e, 'se': False}
-    check_sig(CTX, 'alias.significant_duration', call, motion, dt, s, e, False, 'squares', result)
+    rec = _vals_record(motion, pre)
+    call = {'fn': 'calc_significant_duration', 'values': np.asarray(rec), 'dt': dt, 'start': s, 'end': e, 'se': False}
+    _purity(CTX, call, pre and pre.get('motion'), motion, 'motion')
+    check_sig(CTX, 'alias.significant_duration', call, rec, dt, s, e, False, 'squares', result)
 
 
 @_guard
 def _post_sig(args, kwargs, result, pre):
-    name, call, arr, dt, s, e, se, measure, im_vals = _sig_context(args, kwargs)
+    asig, name, call, arr, dt, s, e, se, measure, im_vals = _sig_context(args, kwargs, pre)
+    _purity(CTX, call, arr, asig.values, 'asig.values')
     check_sig(CTX, name, call, arr, dt, s, e, se, measure, result, im_vals)
 
 
 def _onex_common(name, call, arr, dt, s, e, measure, exc, im_vals=None):
     ctx = CTX
-    if CURRENT['probe']:
-        ctx.observe('%s: out-of-domain probe raised %s' % (name, type(exc).__name__))
-        return
     arr = _clean(arr)
-    if arr is None or not (0 < s < e < 1) or not (dt > 0) or (measure == 'custom' and _clean(im_vals) is None):
+    try:
+        s, e, dt = float(s), float(e), float(dt)
+    except (TypeError, ValueError):
+        arr = None
+    if arr is None or not (0 <= s < e <= 1) or not (dt > 0) or (measure == 'custom' and _clean(im_vals) is None):
         ctx.observe('%s: call outside the quantifier raised %s' % (name, type(exc).__name__))
         return
     if isinstance(exc, IndexError):
@@ -391,20 +466,22 @@ def _onex_common(name, call, arr, dt, s, e, measure, exc, im_vals=None):
 @_guard
 def _onex_vals(args, kwargs, exc, pre):
     motion, dt, s, e, se = _parse_vals(args, kwargs)
-    call = {'fn': 'calc_sig_dur_vals', 'values': np.asarray(motion), 'dt': dt, 'start': s, 'end': e, 'se': se}
-    _onex_common('sigvals', call, motion, dt, s, e, 'squares', exc)
+    rec = _vals_record(motion, pre)
+    call = {'fn': 'calc_sig_dur_vals', 'values': np.asarray(rec), 'dt': dt, 'start': s, 'end': e, 'se': se}
+    _onex_common('sigvals', call, rec, dt, s, e, 'squares', exc)
 
 
 @_guard
 def _onex_alias(args, kwargs, exc, pre):
     motion, dt, s, e, _ = _parse_vals(args, kwargs, with_se=False)
-    call = {'fn': 'calc_significant_duration', 'values': np.asarray(motion), 'dt': dt, 'start': s, 'end': e}
-    _onex_common('alias.significant_duration', call, motion, dt, s, e, 'squares', exc)
+    rec = _vals_record(motion, pre)
+    call = {'fn': 'calc_significant_duration', 'values': np.asarray(rec), 'dt': dt, 'start': s, 'end': e}
+    _onex_common('alias.significant_duration', call, rec, dt, s, e, 'squares', exc)
 
 
 @_guard
 def _onex_sig(args, kwargs, exc, pre):
-    name, call, arr, dt, s, e, se, measure, im_vals = _sig_context(args, kwargs)
+    asig, name, call, arr, dt, s, e, se, measure, im_vals = _sig_context(args, kwargs, pre)
     _onex_common(name, call, arr, dt, s, e, measure, exc, im_vals)
 
 
@@ -418,28 +495,27 @@ def _parse_brac(args, kwargs, with_se=True):
 @_guard
 def _post_brac(args, kwargs, result, pre):
     asig, th, se = _parse_brac(args, kwargs)
-    arr = np.asarray(asig.values)
-    call = {'fn': 'calc_brac_dur', 'values': arr, 'dt': asig.dt, 'threshold': th, 'se': se}
-    check_brac(CTX, 'brac', call, arr, asig.dt, th, se, result)
+    arr = pre['values']
+    call = {'fn': 'calc_brac_dur', 'values': arr, 'dt': pre['dt'], 'threshold': th, 'se': se}
+    _purity(CTX, call, arr, asig.values, 'asig.values')
+    check_brac(CTX, 'brac', call, arr, pre['dt'], th, se, result)
 
 
 @_guard
 def _post_brac_alias(args, kwargs, result, pre):
     asig, th, _ = _parse_brac(args, kwargs, with_se=False)
-    arr = np.asarray(asig.values)
-    call = {'fn': 'calc_bracketed_duration', 'values': arr, 'dt': asig.dt, 'threshold': th, 'se': False}
-    check_brac(CTX, 'alias.bracketed_duration', call, arr, asig.dt, th, False, result)
+    arr = pre['values']
+    call = {'fn': 'calc_bracketed_duration', 'values': arr, 'dt': pre['dt'], 'threshold': th, 'se': False}
+    _purity(CTX, call, arr, asig.values, 'asig.values')
+    check_brac(CTX, 'alias.bracketed_duration', call, arr, pre['dt'], th, False, result)
 
 
 def _onex_brac_factory(fn, name, with_se):
     @_guard
     def onex(args, kwargs, exc, pre):
-        if CURRENT['probe']:
-            CTX.observe('%s: out-of-domain probe raised %s' % (name, type(exc).__name__))
-            return
         asig, th, se = _parse_brac(args, kwargs, with_se)
-        arr = np.asarray(asig.values)
-        call = {'fn': fn, 'values': arr, 'dt': asig.dt, 'threshold': th, 'se': se}
+        arr = pre['values']
+        call = {'fn': fn, 'values': arr, 'dt': pre['dt'], 'threshold': th, 'se': se}
         if _clean(arr) is None:
             CTX.observe('%s: call outside the quantifier raised %s' % (name, type(exc).__name__))
             return
@@ -459,11 +535,11 @@ def install(ctx):
         MEASURES['isq_dt'] = lambda a: np.cumsum(np.asarray(a.values, dtype=float) ** 2) * a.dt
     if getattr(im.calc_sig_dur_vals, '__vf_c10__', False):
         return
-    attach.wrap(im, 'calc_sig_dur_vals', _post_vals, on_exception=_onex_vals).__vf_c10__ = True
-    attach.wrap(im, 'calc_significant_duration', _post_alias, on_exception=_onex_alias)
-    attach.wrap(im, 'calc_sig_dur', _post_sig, on_exception=_onex_sig)
-    attach.wrap(im, 'calc_brac_dur', _post_brac, on_exception=_onex_brac_factory('calc_brac_dur', 'brac', True))
-    attach.wrap(im, 'calc_bracketed_duration', _post_brac_alias,
+    attach.wrap(im, 'calc_sig_dur_vals', _post_vals, pre=_pre_vals, on_exception=_onex_vals).__vf_c10__ = True
+    attach.wrap(im, 'calc_significant_duration', _post_alias, pre=_pre_vals, on_exception=_onex_alias)
+    attach.wrap(im, 'calc_sig_dur', _post_sig, pre=_pre_sig, on_exception=_onex_sig)
+    attach.wrap(im, 'calc_brac_dur', _post_brac, pre=_pre_brac, on_exception=_onex_brac_factory('calc_brac_dur', 'brac', True))
+    attach.wrap(im, 'calc_bracketed_duration', _post_brac_alias, pre=_pre_brac,
                 on_exception=_onex_brac_factory('calc_bracketed_duration', 'alias.bracketed_duration', False))
 
 
@@ -545,15 +621,57 @@ def _thresholds(cur, specs):
     return out
 
 
-READS = ['velocity', 'displacement', 'pga', 'pgv', 'pgd', 'fa_spectrum', 'smooth_fa_spectrum', 's_a', 'time', 'npts']
+def _th_form(th, j):
+    """The same threshold as another Python/numpy scalar form."""
+    if j % 5 == 3:
+        return np.float64(th)
+    if j % 5 == 4 and float(th).is_integer() and abs(th) < 2 ** 53:
+        return int(th)
+    return th
+
+
+def _layout(x, layout):
+    """The record in a given memory layout / flag state (same numbers, same dtype)."""
+    if layout == 'stride':
+        base = np.empty(2 * len(x), dtype=x.dtype)
+        base[::2] = x
+        base[1::2] = x[::-1]
+        return base[::2]
+    if layout == 'reversed':
+        return np.array(x[::-1])[::-1]
+    if layout == 'readonly':
+        y = np.array(x)
+        y.flags.writeable = False
+        return y
+    return np.array(x)
+
+
+def _other_record(x):
+    """A different record of the same shape and dtype (for the back-to-back check)."""
+    y = np.array(np.roll(x, max(1, len(x) // 3))[::-1])
+    if np.array_equal(y, x):
+        y = np.array(x)
+        y[0] = y[0] + 1 if y[0] < 100 else y[0] - 1
+    return y
 
 
 def _apply_op(eqsig, ctx, asig, op):
-    """One step of an object's history. Failures of the history operations themselves are not C10's business."""
+    """One step of an object's history; returns the object to continue with. Failures of the history operations themselves
+    are not C10's business."""
     kind = op['op']
     try:
         if kind == 'read':
             getattr(asig, op['what'])
+        elif kind == 'regen':       # explicit regenerations with non-default options
+            w = op['what']
+            if w == 'fa':
+                asig.gen_fa_spectrum(p2_plus=int(op.get('p2_plus', 1)))
+            elif w == 'smooth':
+                asig.gen_smooth_fa_spectrum(band=int(op.get('band', 20)))
+            elif w == 'resp':
+                asig.gen_response_spectrum(response_times=np.array([0.2, 0.5, 1.0]), xi=float(op.get('xi', 0.1)))
+            else:
+                asig.generate_displacement_and_velocity_series(trap=False)
         elif kind == 'gen_duration_stats':
             asig.generate_duration_stats()
         elif kind == 'gen_cumulative_stats':
@@ -573,7 +691,7 @@ def _apply_op(eqsig, ctx, asig, op):
                 eqsig.im.calc_brac_dur(asig, th, se=True)
             eqsig.im.calc_bracketed_duration(asig, 0.0)
         elif kind == 'reset_values':
-            asig.reset_values(np.array(op['values']))
+            asig.reset_values(_layout(np.asarray(op['values']), op.get('layout')))
         elif kind == 'add_constant':
             asig.add_constant(op['c'])
         elif kind == 'add_series':
@@ -588,28 +706,51 @@ def _apply_op(eqsig, ctx, asig, op):
             asig.remove_poly(int(op['k']))
         elif kind == 'running_average':
             asig.running_average(int(op['width']))
+        elif kind in ('rebase_displacement', 'set_zero_residual_velocity', 'set_zero_residual_displacement',
+                      'set_zero_residual_displacement_and_velocity', 'remove_rolling_average'):
+            getattr(asig, kind)()
+        elif kind == 'inplace_edit':     # the caller edits the array handed out by .values
+            v = asig.values
+            v[int(op['index']) % len(v)] *= op['factor']
+        elif kind == 'twin':             # continue with a twin built from this object's values; then edit the original
+            twin = eqsig.AccSignal(asig.values, asig.dt)
+            try:
+                asig.values[::2] *= -3
+            except Exception:
+                pass
+            asig = twin
         else:
             raise ValueError(kind)
         ctx.observe('history-op:%s' % kind)
     except Exception as e:
         ctx.observe('history-op raised (not judged): %s %s' % (kind, type(e).__name__))
+    return asig
+
+
+def _dt_arg(dt, form):
+    if form == 'np':
+        return np.float64(dt)
+    if form == 'int' and float(dt).is_integer():
+        return int(dt)
+    return dt
 
 
 def _build(eqsig, ctx, case):
-    """The AccSignal of the case: fresh from the container, then its history. Returns (asig, current values copy)."""
+    """The AccSignal of the case: fresh from the container, then its history."""
     x = np.asarray(case['values'])
     cont = case.get('container', 'array')
-    if cont == 'list':
+    if cont in ('list', 'intlist'):
         arg = x.tolist()
     elif cont == 'tuple':
         arg = tuple(x.tolist())
+    elif cont == 'mixedlist':
+        arg = [int(v) if float(v).is_integer() and i % 2 else float(v) for i, v in enumerate(x.tolist())]
     else:
-        arg = np.array(x)
-    asig = eqsig.AccSignal(arg, float(case['dt']))
+        arg = _layout(x, case.get('layout'))
+    asig = eqsig.AccSignal(arg, _dt_arg(float(case['dt']), case.get('dt_form')))
     for op in case.get('history') or []:
-        _apply_op(eqsig, ctx, asig, op)
-    cur = np.array(asig.values)
-    return asig, cur
+        asig = _apply_op(eqsig, ctx, asig, op)
+    return asig
 
 
 def _call_vals(im, x, dt, s, e, se, form):
@@ -617,6 +758,8 @@ def _call_vals(im, x, dt, s, e, se, form):
         return im.calc_sig_dur_vals(x, dt, start=s, end=e, se=se)
     if form == 1:
         return im.calc_sig_dur_vals(x, dt, s, e, se)
+    if form == 3:
+        return im.calc_sig_dur_vals(x, np.float64(dt), np.float64(s), end=np.float64(e), se=se)
     if (s, e) == (0.05, 0.95):
         return im.calc_sig_dur_vals(x, dt, se=se) if se else im.calc_sig_dur_vals(x, dt)
     return im.calc_sig_dur_vals(motion=x, dt=dt, end=e, start=s, se=se)
@@ -627,6 +770,8 @@ def _call_sig(im, asig, s, e, imf, se, form):
         return im.calc_sig_dur(asig, start=s, end=e, im=imf, se=se)
     if form == 1:
         return im.calc_sig_dur(asig, s, e, imf, se)
+    if form == 3:
+        return im.calc_sig_dur(asig, np.float64(s), np.float64(e), im=imf, se=se)
     if (s, e) == (0.05, 0.95) and imf is None:
         return im.calc_sig_dur(asig, se=se) if se else im.calc_sig_dur(asig)
     return im.calc_sig_dur(asig, end=e, start=s, se=se, im=imf)
@@ -641,7 +786,6 @@ def run_case(eqsig, ctx, case):
                 _run_case(eqsig, ctx, case)
     finally:
         CURRENT['case'] = None
-        CURRENT['probe'] = False
 
 
 def _rel(ctx, cond, clause, case, what, msg):
@@ -653,32 +797,56 @@ def _near_knife(arr, dt, s, e, measure, im_vals=None):
     return r.n_amb > 0 or not r.definite
 
 
+def _repeat_relation(ctx, case, what, f_first, f_other):
+    """Two different inputs of the same shape back to back; the first result is re-checked after the second call."""
+    r1 = _call(f_first)
+    held = repr(r1)
+    _call(f_other)
+    r1b = _call(f_first)
+    _rel(ctx, _same(r1, r1b) and (r1 is _FAIL or repr(r1) == held), 'rel.repeat-after-other-input', case, what,
+         'first call gave %s, the same call after another input of the same shape gave %r (held result now %r)'
+         % (held, _show(r1b), _show(r1)))
+
+
 def _run_case(eqsig, ctx, case):
     im = eqsig.im
-    x = np.asarray(case['values'])
+    x = _layout(np.asarray(case['values']), case.get('layout'))     # ONE argument object reused by all array-level calls
     dt = float(case['dt'])
+    dt_arg = _dt_arg(dt, case.get('dt_form'))
     fracs = [(float(f[0]), float(f[1])) for f in case['fracs']]
     k_scale = int(case.get('k_scale', 0))
     factor = case.get('factor')
     k_pad = int(case.get('k_pad', 0))
     measures = list(case.get('measures') or [])
     is_float = x.dtype.kind == 'f'
+    form0 = int(case.get('form', 0))
+    cont = case.get('container', 'array')
+    if cont in ('list', 'intlist'):
+        xc = x.tolist()
+    elif cont == 'tuple':
+        xc = tuple(x.tolist())
+    elif cont == 'mixedlist':
+        xc = [int(v) if float(v).is_integer() and i % 2 else float(v) for i, v in enumerate(x.tolist())]
+    else:
+        xc = x
 
     # ------------------------------------------------------------------------------------------ array level
     vals_pairs = {}
     if case.get('array_level', True) and _clean(x) is not None:
         for j, (s, e) in enumerate(fracs):
-            form = (j + int(case.get('form', 0))) % 3
-            pair = _call(lambda: _call_vals(im, x, dt, s, e, True, form))
-            scal = _call(lambda: _call_vals(im, x, dt, s, e, False, (form + 1) % 3))
+            form = (j + form0) % 4
+            if form == 3 and x.dtype == np.float32:
+                form = 0      # np.float64 fractions change numpy's promotion for float32 records (knife edges move)
+            pair = _call(lambda: _call_vals(im, xc, dt_arg, s, e, True, form))
+            scal = _call(lambda: _call_vals(im, xc, dt_arg, s, e, False, form))   # same argument forms: the two results are compared
             vals_pairs[(s, e)] = pair
             _se_relation(ctx, case, 'calc_sig_dur_vals(start=%r,end=%r)' % (s, e), pair, scal, dt)
             if (s, e) == (0.05, 0.95) and j % 2 == 0:
-                _call(lambda: im.calc_significant_duration(x, dt))
+                _call(lambda: im.calc_significant_duration(xc, dt_arg))
             elif j % 2:
-                _call(lambda: im.calc_significant_duration(x, dt, s, e))
+                _call(lambda: im.calc_significant_duration(xc, dt_arg, s, e))
             else:
-                _call(lambda: im.calc_significant_duration(x, dt, start=s, end=e))
+                _call(lambda: im.calc_significant_duration(xc, dt_arg, start=s, end=e))
             if not _pair_ok(pair):
                 continue
             # amplitude scaling by a power of two: bit-identical comparisons
@@ -702,23 +870,67 @@ def _run_case(eqsig, ctx, case):
                 _rel(ctx, okk, 'rel.zero-prepend-shift', case, 'calc_sig_dur_vals, %d zeros prepended (start=%r,end=%r)' % (k_pad, s, e),
                      '%r -> %r, expected shift of %d samples (dt=%r)' % (pair, p4, k_pad, dt))
         _nested(ctx, case, 'calc_sig_dur_vals', fracs, vals_pairs)
+        if case.get('repeat'):
+            s, e = fracs[0]
+            x2 = _other_record(x)
+            _repeat_relation(ctx, case, 'calc_sig_dur_vals(start=%r,end=%r)' % (s, e),
+                             lambda: im.calc_sig_dur_vals(xc, dt, start=s, end=e, se=True),
+                             lambda: im.calc_sig_dur_vals(x2, dt, start=s, end=e, se=True))
 
     # ------------------------------------------------------------------------------------------ object level
     if not case.get('object_level', True):
         return
     try:
-        asig, cur = _build(eqsig, ctx, case)
+        asig = _build(eqsig, ctx, case)
     except Exception as e:
         ctx.exception('sigdur.arias.start/end==definition', {'case': case, 'where': 'AccSignal construction'}, e)
         return
-    if _clean(cur) is None or len(cur) < 2:
+    has_history = bool(case.get('history')) or bool(case.get('rounds'))
+    _object_block(eqsig, ctx, case, asig, dt, fracs, measures, full=True, compare_fresh=has_history)
+    for r, ops in enumerate(case.get('rounds') or []):
+        for op in ops:
+            asig = _apply_op(eqsig, ctx, asig, op)
+        _object_block(eqsig, ctx, case, asig, dt, fracs, measures, full=False, compare_fresh=True,
+                      order_seed=int(case.get('order_seed', 0)) + r)
+
+
+def _object_block(eqsig, ctx, case, asig, dt, fracs, measures, full, compare_fresh, order_seed=None):
+    """The monitored object-level calls on the object's CURRENT values (+ relations). full=False: the calls of a later
+    round, in a shuffled order with repeats, each compared with a fresh object of the same values."""
+    im = eqsig.im
+    cur = np.array(asig.values)
+    if _clean(cur) is None:
         ctx.observe('object: values after history not a finite series (not judged)')
         return
-    has_history = bool(case.get('history'))
-    fresh = None
-    if has_history:
-        fresh = eqsig.AccSignal(np.array(cur), dt)
+    fresh = eqsig.AccSignal(np.array(cur), dt) if compare_fresh else None
+    ths = _thresholds(cur, case.get('thr_specs') or [])
+    form0 = int(case.get('form', 0))
+
+    if not full:
+        calls = []
+        for (s, e) in fracs[:2]:
+            for mname in [None] + measures[:1]:
+                imf = MEASURES[mname] if mname else None
+                for se in (True, False):
+                    calls.append(('calc_sig_dur(im=%s,start=%r,end=%r,se=%s)' % (mname, s, e, se),
+                                  lambda o, s=s, e=e, imf=imf, se=se: im.calc_sig_dur(o, start=s, end=e, im=imf, se=se)))
+        for th in ths[:5]:
+            for se in (True, False):
+                calls.append(('calc_brac_dur(threshold=%r,se=%s)' % (th, se), lambda o, th=th, se=se: im.calc_brac_dur(o, th, se=se)))
+        calls.append(('calc_bracketed_duration(0)', lambda o: im.calc_bracketed_duration(o, 0)))
+        rng = np.random.default_rng(order_seed or 0)
+        order = list(rng.permutation(len(calls))) + list(rng.integers(0, len(calls), size=4))
+        for k in order:
+            what, f = calls[int(k)]
+            r = _call(lambda: f(asig))
+            rf = _call(lambda: f(fresh))
+            _rel(ctx, _same(r, rf), 'rel.history==fresh', case, what + ' (later round)',
+                 'object with history gave %r, fresh object of the same values %r' % (_show(r), _show(rf)))
+        return
+
     cur_float = cur.dtype.kind == 'f'
+    k_scale = int(case.get('k_scale', 0))
+    k_pad = int(case.get('k_pad', 0))
     scaled = None
     if k_scale:
         ys = cur * (2.0 ** k_scale) if cur_float else cur * (2 ** abs(k_scale))
@@ -734,9 +946,11 @@ def _run_case(eqsig, ctx, case):
         for j, (s, e) in enumerate(fracs):
             if mname and j >= 2:
                 break
-            form = (j + 1 + int(case.get('form', 0))) % 3
+            form = (j + 1 + form0) % 4
+            if form == 3 and cur.dtype == np.float32:
+                form = 0
             pair = _call(lambda: _call_sig(im, asig, s, e, imf, True, form))
-            scal = _call(lambda: _call_sig(im, asig, s, e, imf, False, (form + 1) % 3))
+            scal = _call(lambda: _call_sig(im, asig, s, e, imf, False, form))
             pairs[(s, e)] = pair
             what = 'calc_sig_dur(im=%s,start=%r,end=%r)' % (mname, s, e)
             _se_relation(ctx, case, what, pair, scal, dt)
@@ -762,19 +976,19 @@ def _run_case(eqsig, ctx, case):
         _nested(ctx, case, 'calc_sig_dur(im=%s)' % mname, fracs, pairs)
 
     # ------------------------------------------------------------------------------------------ bracketed
-    ths = _thresholds(cur, case.get('thr_specs') or [])
     results = []
     for j, th in enumerate(ths):
+        tha = _th_form(th, j + form0)
         if j % 2:
-            pair = _call(lambda: im.calc_brac_dur(asig, th, True))
-            scal = _call(lambda: im.calc_brac_dur(asig, threshold=th))
+            pair = _call(lambda: im.calc_brac_dur(asig, tha, True))
+            scal = _call(lambda: im.calc_brac_dur(asig, threshold=tha))
         else:
-            pair = _call(lambda: im.calc_brac_dur(asig, threshold=th, se=True))
-            scal = _call(lambda: im.calc_brac_dur(asig, th, se=False) if j % 4 else im.calc_brac_dur(asig, th))
+            pair = _call(lambda: im.calc_brac_dur(asig, threshold=tha, se=True))
+            scal = _call(lambda: im.calc_brac_dur(asig, tha, se=False) if j % 4 else im.calc_brac_dur(asig, tha))
         what = 'calc_brac_dur(threshold=%r)' % th
         _se_relation(ctx, case, what, pair, scal, dt)
         if j % 3 == 0:
-            _call(lambda: im.calc_bracketed_duration(asig, th))
+            _call(lambda: im.calc_bracketed_duration(asig, tha) if j % 2 else im.calc_bracketed_duration(asig, threshold=tha))
         results.append((th, pair, scal))
         if fresh is not None:
             pf = _call(lambda: im.calc_brac_dur(fresh, th, se=True))
@@ -800,6 +1014,15 @@ def _run_case(eqsig, ctx, case):
             okk = False
         _rel(ctx, okk, 'rel.brac-monotone-threshold', case, 'thresholds %r < %r' % (t1, t2),
              '%r / %r then %r / %r' % (p1, s1, p2, s2))
+    # process-wide state: another object of the same shape in between, first result re-checked afterwards
+    if case.get('repeat') and len(ths) > 1:
+        other = eqsig.AccSignal(_other_record(cur), dt)
+        s, e = fracs[0]
+        th = ths[1]
+        _repeat_relation(ctx, case, 'calc_sig_dur(start=%r,end=%r)' % (s, e),
+                         lambda: im.calc_sig_dur(asig, start=s, end=e, se=True), lambda: im.calc_sig_dur(other, start=s, end=e, se=True))
+        _repeat_relation(ctx, case, 'calc_brac_dur(threshold=%r)' % th,
+                         lambda: im.calc_brac_dur(asig, th, se=True), lambda: im.calc_brac_dur(other, th, se=True))
 
 
 def _show(r):
@@ -828,10 +1051,14 @@ POW2_DT = [1.0, 0.5, 0.25, 0.125, 1.0 / 64, 1.0 / 128, 1.0 / 1024]
 N_CHOICES = [2, 3, 4, 5, 6, 8, 12, 16, 17, 25, 33, 50, 64, 100, 200, 257, 500, 1000, 2000, 3000]
 N_P = np.array([3, 3, 3, 3, 3, 4, 4, 5, 5, 5, 6, 7, 7, 8, 8, 7, 7, 5, 3, 2], dtype=float)
 N_P /= N_P.sum()
+N_EDGE = [1, 1, 2, 2, 3, 3, 4, 7, 8, 9, 15, 16, 17, 31, 32, 33, 63, 64, 65, 127, 128, 129, 255, 256, 257, 511, 512, 513,
+          1023, 1024, 1025, 2047, 2048, 2049]
+NARROW = {'i8': np.int8, 'i16': np.int16, 'i32': np.int32, 'u8': np.uint8, 'u16': np.uint16}
 
 
 def gen_fracs(rng, exact_bias):
-    """3-4 pairs: a standard one, and a nested (outer, inner) couple from the dyadic, power-of-two or uniform pool."""
+    """3-5 pairs: a standard one, a nested (outer, inner) couple from the dyadic, power-of-two or uniform pool, sometimes a
+    boundary pair (start = 0 and/or end = 1 exactly)."""
     out = [STD_FRACS[int(rng.integers(2))]]
     r = rng.random()
     if r < (0.55 if exact_bias else 0.3):
@@ -851,6 +1078,8 @@ def gen_fracs(rng, exact_bias):
         out.append((q[1], q[2]))
     if rng.random() < 0.25:
         out.append(STD_FRACS[1] if out[0] == STD_FRACS[0] else STD_FRACS[0])
+    if rng.random() < 0.2:
+        out.append([(0.0, out[1][1]), (out[1][0], 1.0), (0.0, 1.0), (0.0, 0.5)][int(rng.integers(4))])
     return [(float(a), float(b)) for a, b in out]
 
 
@@ -900,72 +1129,122 @@ def gen_tie_record(rng):
     return x, 'tie-short-int'
 
 
+def _gen_reads(rng, ops, k, small):
+    for _ in range(k):
+        r = rng.random()
+        if r < 0.38:
+            w = ['velocity', 'displacement', 'pga', 'pgv', 'pgd', 'fa_spectrum', 'time', 'npts'][int(rng.integers(8))]
+            ops.append({'op': 'read', 'what': w})
+        elif r < 0.45:
+            ops.append({'op': 'read', 'what': 'smooth_fa_spectrum' if rng.random() < 0.5 else 's_a'})
+        elif r < 0.55:
+            ops.append({'op': 'regen', 'what': ['fa', 'smooth', 'resp', 'dv'][int(rng.integers(4))], 'p2_plus': int(rng.integers(1, 3)),
+                        'band': int(rng.choice([10, 20, 80])), 'xi': float(rng.choice([0.0, 0.02, 0.1, 0.2]))})
+        elif r < 0.68:
+            ops.append({'op': 'gen_duration_stats'})
+        elif r < 0.78:
+            ops.append({'op': 'gen_cumulative_stats'})
+        elif r < 0.87:
+            ops.append({'op': 'gen_all_motion_stats'})
+        else:
+            ops.append({'op': 'calc', 'threshold': float(abs(rng.normal()) * (0.02 if small else 1.0))})
+
+
+def _gen_mutation(rng, ops, n, dt, small, keep_length):
+    """One public mutator. n: current length of the object (tracked by the generator); returns the new length."""
+    amp = 0.03 if small else 1.0
+    r = int(rng.integers(0, 17))
+    if keep_length and r in (1, 2):
+        r = 0
+    if r == 0:
+        ops.append({'op': 'reset_values', 'values': gen.record(rng, n, allow_const=False)[0] * amp,
+                    'layout': [None, 'stride', 'reversed', 'readonly'][int(rng.integers(4))]})
+    elif r == 1:
+        n = max(2, int(n * rng.uniform(0.3, 0.9)))
+        ops.append({'op': 'reset_values', 'values': rng.normal(size=n) * amp})
+    elif r == 2:
+        n = int(n * rng.uniform(1.1, 2.0)) + 1
+        ops.append({'op': 'reset_values', 'values': np.round(rng.normal(size=n) * 3) * (0.015625 if small else 1.0)})
+    elif r == 3:
+        ops.append({'op': 'add_constant', 'c': float(rng.choice([1.0, -0.5, 0.01, 3.0])) * amp})
+    elif r == 4:
+        ops.append({'op': 'add_series', 'values': rng.normal(size=n) * amp})
+    elif r == 5:
+        ops.append({'op': 'add_signal', 'values': np.sin(np.arange(n) * rng.uniform(0.05, 1.0)) * amp})
+    elif r == 6:
+        nyq = 0.5 / dt
+        ops.append({'op': 'butter_pass', 'cut_off': [float(rng.uniform(0.02, 0.1) * nyq), float(rng.uniform(0.3, 0.8) * nyq)]})
+    elif r == 7:
+        ops.append({'op': 'remove_average'})
+    elif r == 8:
+        ops.append({'op': 'remove_poly', 'k': int(rng.integers(0, 3))})
+    elif r == 9:
+        ops.append({'op': 'running_average', 'width': int(rng.integers(2, 6))})
+    elif r in (10, 11, 12, 13):
+        ops.append({'op': ['rebase_displacement', 'set_zero_residual_velocity', 'set_zero_residual_displacement',
+                           'set_zero_residual_displacement_and_velocity'][r - 10]})
+    elif r == 14:
+        ops.append({'op': 'remove_rolling_average'})
+    elif r == 15:
+        ops.append({'op': 'inplace_edit', 'index': int(rng.integers(0, n)), 'factor': float(rng.choice([-2.0, 0.0, 3.5, 10.0]))})
+    else:
+        ops.append({'op': 'twin'})
+    return n
+
+
 def gen_history(rng, n, dt, small):
+    """(history ops before the first block of monitored calls, later rounds of ops each followed by another block)."""
     ops = []
-
-    def reads(k):
-        for _ in range(k):
-            r = rng.random()
-            if r < 0.45:
-                w = ['velocity', 'displacement', 'pga', 'pgv', 'pgd', 'fa_spectrum', 'time', 'npts'][int(rng.integers(8))]
-                ops.append({'op': 'read', 'what': w})
-            elif r < 0.52:
-                ops.append({'op': 'read', 'what': 'smooth_fa_spectrum' if rng.random() < 0.5 else 's_a'})
-            elif r < 0.67:
-                ops.append({'op': 'gen_duration_stats'})
-            elif r < 0.77:
-                ops.append({'op': 'gen_cumulative_stats'})
-            elif r < 0.87:
-                ops.append({'op': 'gen_all_motion_stats'})
-            else:
-                ops.append({'op': 'calc', 'threshold': float(abs(rng.normal()) * (0.02 if small else 1.0))})
-
-    def mutation():
-        r = int(rng.integers(0, 10))
-        amp = 0.03 if small else 1.0
-        if r == 0:
-            ops.append({'op': 'reset_values', 'values': gen.record(rng, n, allow_const=False)[0] * amp})
-        elif r == 1:
-            m = max(2, int(n * rng.uniform(0.3, 0.9)))
-            ops.append({'op': 'reset_values', 'values': rng.normal(size=m) * amp})
-        elif r == 2:
-            m = int(n * rng.uniform(1.1, 2.0)) + 1
-            ops.append({'op': 'reset_values', 'values': np.round(rng.normal(size=m) * 3) * (0.015625 if small else 1.0)})
-        elif r == 3:
-            ops.append({'op': 'add_constant', 'c': float(rng.choice([1.0, -0.5, 0.01, 3.0])) * amp})
-        elif r == 4:
-            ops.append({'op': 'add_series', 'values': rng.normal(size=n) * amp})
-        elif r == 5:
-            ops.append({'op': 'add_signal', 'values': np.sin(np.arange(n) * rng.uniform(0.05, 1.0)) * amp})
-        elif r == 6:
-            nyq = 0.5 / dt
-            lo = float(rng.uniform(0.02, 0.1) * nyq)
-            hi = float(rng.uniform(0.3, 0.8) * nyq)
-            ops.append({'op': 'butter_pass', 'cut_off': [lo, hi]})
-        elif r == 7:
-            ops.append({'op': 'remove_average'})
-        elif r == 8:
-            ops.append({'op': 'remove_poly', 'k': int(rng.integers(0, 3))})
-        else:
-            ops.append({'op': 'running_average', 'width': int(rng.integers(2, 6))})
-
-    reads(int(rng.integers(1, 4)))
-    mutation()
+    _gen_reads(rng, ops, int(rng.integers(1, 4)), small)
+    n = _gen_mutation(rng, ops, n, dt, small, False)
     if rng.random() < 0.5:
-        reads(int(rng.integers(1, 3)))
-        # a mutation that keeps the current length (add_series etc. need the ORIGINAL n only if no reset changed it)
-        if not any(o['op'] == 'reset_values' and len(o['values']) != n for o in ops):
-            mutation()
-        else:
-            ops.append({'op': ['remove_average', 'add_constant', 'running_average'][int(rng.integers(3))], 'c': 0.25, 'width': 3})
+        _gen_reads(rng, ops, int(rng.integers(1, 3)), small)
+        n = _gen_mutation(rng, ops, n, dt, small, False)
     if rng.random() < 0.3:
-        reads(1)
-    return ops
+        _gen_reads(rng, ops, 1, small)
+    rounds = []
+    for _ in range(int(rng.choice([0, 1, 2], p=[0.4, 0.4, 0.2]))):
+        rops = []
+        if rng.random() < 0.6:
+            _gen_reads(rng, rops, 1, small)
+        n = _gen_mutation(rng, rops, n, dt, small, False)
+        if rng.random() < 0.3:
+            _gen_reads(rng, rops, 1, small)
+        rounds.append(rops)
+    return ops, rounds
+
+
+def _edge_modifier(rng, x):
+    """Plateaus at the ends, the extreme at the first / last sample, a sign change right before the end, zero ends."""
+    x = np.array(x, dtype=float)
+    n = len(x)
+    m = float(np.max(np.abs(x))) or 1.0
+    k = int(rng.integers(0, 8))
+    w = max(1, min(n // 4, int(rng.integers(1, 6))))
+    if k == 0:
+        x[0] = m * 1.5 * float(rng.choice([-1.0, 1.0]))
+    elif k == 1:
+        x[-1] = m * 1.5 * float(rng.choice([-1.0, 1.0]))
+    elif k == 2:
+        x[:w] = x[0] if x[0] != 0 else m
+    elif k == 3:
+        x[-w:] = x[-1] if x[-1] != 0 else -m
+    elif k == 4 and n >= 2:
+        x[-1] = -x[-2] if x[-2] != 0 else m
+    elif k == 5:
+        x[:w] = 0.0
+    elif k == 6:
+        x[-w:] = 0.0
+    return x, ['extreme-first', 'extreme-last', 'plateau-start', 'plateau-end', 'sign-change-end', 'zero-start', 'zero-end', 'plain'][k]
+
+
+KINDS = ['generic', 'generic', 'tie', 'history', 'container', 'generic', 'tie', 'history', 'scale', 'edge']
 
 
 def gen_case(rng, idx):
-    kind = ['generic', 'generic', 'generic', 'tie', 'tie', 'history', 'history', 'container'][idx % 8]
-    case = {'kind': kind, 'form': int(rng.integers(3))}
+    kind = KINDS[idx % len(KINDS)]
+    case = {'kind': kind, 'form': int(rng.integers(4)), 'layout': None, 'dt_form': ['float', 'float', 'np', 'int'][int(rng.integers(4))],
+            'repeat': bool(rng.random() < 0.35)}
     if kind == 'tie':
         x, cls = gen_tie_record(rng)
         if rng.random() < 0.3:
@@ -974,44 +1253,86 @@ def gen_case(rng, idx):
         case['fracs'] = gen_fracs(rng, True)
         case['measures'] = ['cumabs'] + (['cav'] if rng.random() < 0.3 else [])
     else:
-        n = int(rng.choice(N_CHOICES, p=N_P)) if rng.random() < 0.7 else int(rng.integers(2, 3001))
+        if kind == 'edge':
+            n = int(N_EDGE[int(rng.integers(len(N_EDGE)))])
+        else:
+            n = int(rng.choice(N_CHOICES, p=N_P)) if rng.random() < 0.7 else int(rng.integers(2, 3001))
         if kind == 'history':
-            n = min(n, 600)
-            n = max(n, 8)
+            n = max(8, min(n, 600))
         x, cls = gen.record(rng, n)
         dt = gen.dt(rng) if rng.random() < 0.85 else float(rng.choice(POW2_DT))
         case['fracs'] = gen_fracs(rng, cls in ('plateau', 'intnoise', 'const', 'alt', 'step', 'impulse'))
         case['measures'] = [['cumabs'], ['cav'], ['isq_dt'], ['cumabs', 'cav']][int(rng.integers(4))]
     case['cls'] = cls
-    case['dt'] = float(dt)
     case['k_scale'] = int(rng.choice([-20, -3, -1, 1, 2, 10, 40]))
     case['factor'] = float(rng.choice([3.7, 1e-3, 0.3, 981.0])) if rng.random() < 0.5 else None
     case['k_pad'] = int(rng.choice([1, 2, 5, 16, 100])) if rng.random() < 0.7 else 0
     case['thr_specs'] = gen_thr_specs(rng)
     case['container'] = 'array'
+    if kind == 'edge':
+        x, mod = _edge_modifier(rng, x)
+        case['cls'] = 'n=%s/%s' % ('1' if len(x) == 1 else ('2-4' if len(x) <= 4 else 'pow2+-1'), mod)
+    if kind == 'scale':
+        sc = ['micro', 'huge', 'offset', 'dt-tiny', 'dt-huge', 'micro+dt-tiny'][int(rng.integers(6))]
+        m = float(np.max(np.abs(x))) or 1.0
+        if 'micro' in sc:
+            x = x / m * 10.0 ** rng.uniform(-12, -8)
+        elif sc == 'huge':
+            x = x / m * 10.0 ** rng.uniform(8, 12)
+        elif sc == 'offset':
+            x = x / m * 10.0 ** rng.uniform(-3, 0) + float(rng.choice([-1.0, 1.0])) * 10.0 ** rng.uniform(3, 6)
+        if 'dt-tiny' in sc:
+            dt = float(10.0 ** rng.uniform(-9, -3))
+        elif sc == 'dt-huge':
+            dt = float(10.0 ** rng.uniform(0, 3)) if rng.random() < 0.7 else float(rng.choice([1.0, 2.0, 60.0, 1000.0]))
+        case['cls'] = sc
     if kind == 'container':
-        c = ['f32', 'i64', 'list', 'tuple'][int(rng.integers(4))]
+        c = ['f32', 'i64', 'list', 'tuple', 'i8', 'i16', 'i32', 'u8', 'u16', 'intlist', 'mixedlist', 'stride', 'reversed',
+             'readonly'][int(rng.integers(14))]
         case['cls'] = c
         if c == 'f32':
             x = np.asarray(x, dtype=np.float32)
             case['factor'] = None
             case['k_scale'] = int(rng.choice([-3, -1, 1, 2]))
-        elif c == 'i64':
+        elif c in ('i64', 'intlist', 'mixedlist'):
             if not np.all(x == np.round(x)) or np.max(np.abs(x)) > 1e6:
                 x = np.round(x / (np.max(np.abs(x)) or 1.0) * 9)
-            x = np.asarray(x, dtype=np.int64)
+            if c == 'mixedlist':
+                x = np.asarray(x, dtype=float)
+                x[::3] += 0.5
+                case['container'] = c
+            else:
+                x = np.asarray(x, dtype=np.int64)
+                case['factor'] = None
+                case['k_scale'] = abs(case['k_scale']) % 12 + 1
+                if c == 'intlist':
+                    case['container'] = c
+        elif c in NARROW:
+            info = np.iinfo(NARROW[c])
+            big = rng.random() < 0.35           # values using most of the range: squares wrap in the dtype
+            lim = info.max if big else int((info.max // 2) ** 0.5)
+            y = np.round(x / (np.max(np.abs(x)) or 1.0) * lim)
+            if info.min == 0:
+                y = np.abs(y)
+            elif big and rng.random() < 0.3:
+                y[int(rng.integers(len(y)))] = info.min
+            x = np.asarray(y, dtype=NARROW[c])
+            case['cls'] = c + ('/full-range' if big else '/no-wrap')
             case['factor'] = None
-            case['k_scale'] = abs(case['k_scale']) % 12 + 1
+            case['k_scale'] = 0
+        elif c in ('stride', 'reversed', 'readonly'):
+            case['layout'] = c
         else:
             case['container'] = c
     if kind == 'history':
         small = rng.random() < 0.45
         if small:
             x = x / (np.max(np.abs(x)) or 1.0) * 0.09 * float(rng.uniform(0.2, 1.0))
-        case['history'] = gen_history(rng, len(x), dt, small)
+        case['history'], case['rounds'] = gen_history(rng, len(x), dt, small)
+        case['order_seed'] = int(rng.integers(1 << 30))
         if case['fracs'][0] != STD_FRACS[0]:
             case['fracs'] = [STD_FRACS[0]] + case['fracs']
-        for op in case['history']:
+        for op in case['history'] + [o for r in case['rounds'] for o in r]:
             if op['op'] == 'calc':
                 op['fracs'] = case['fracs'][:2]
                 op['measures'] = case['measures'][:1]
@@ -1019,16 +1340,31 @@ def gen_case(rng, idx):
                 case['thr_specs'].append(['abs', op['thresholds'][1]])
         case['cls'] = 'small-amplitude' if small else 'normal-amplitude'
         case['array_level'] = bool(rng.random() < 0.3)
+        if rng.random() < 0.2:
+            case['layout'] = ['stride', 'reversed', 'readonly'][int(rng.integers(3))]
+    if case['dt_form'] == 'int' and rng.random() < 0.5 and kind in ('generic', 'edge'):
+        dt = float(rng.choice([1.0, 2.0]))
+    case['dt'] = float(dt)
     case['values'] = x
     return case
 
 
+def gen_long_case(rng):
+    """A record past 2**16 samples (few per run; only the direct calls, no relations)."""
+    n = int(rng.choice([2 ** 16 + 1, 2 ** 16 + int(rng.integers(2, 5000)), 100003]))
+    x, cls = gen.record(rng, n, cls=['noise', 'quake', 'zeropad', 'intnoise', 'walk'][int(rng.integers(5))])
+    return {'kind': 'long', 'cls': 'n>2**16', 'form': int(rng.integers(4)), 'layout': None, 'dt_form': 'float', 'repeat': False,
+            'fracs': [STD_FRACS[0], (0.25, 0.75)], 'measures': [], 'k_scale': 0, 'factor': None, 'k_pad': 0,
+            'thr_specs': [['zero'], ['between', 0], ['rank', 1], ['frac', 0.3]], 'container': 'array', 'dt': gen.dt(rng), 'values': x}
+
+
 def _case_digest(case):
     h = []
-    for op in case.get('history') or []:
+    for op in (case.get('history') or []) + [o for r in case.get('rounds') or [] for o in r]:
         h.append([op['op']] + [op[k] for k in sorted(op) if k != 'op'])
     return core.digest(np.asarray(case['values']), case['dt'], case['fracs'], case['thr_specs'], case.get('measures'),
-                       case.get('k_scale'), case.get('factor'), case.get('k_pad'), case.get('container'), h)
+                       case.get('k_scale'), case.get('factor'), case.get('k_pad'), case.get('container'), case.get('layout'),
+                       case.get('dt_form'), h)
 
 
 EXH_FRACS = [(0.25, 0.75), (0.125, 0.5), (0.5, 0.9375)]
@@ -1038,7 +1374,7 @@ def run_exhaustive(eqsig, ctx):
     maxlen = 5 if ctx.tier == 'quick' else 6
     idx = 0
     n_enum = n_nt = 0
-    for L in range(2, maxlen + 1):
+    for L in range(1, maxlen + 1):
         for seq in itertools.product(range(-2, 3), repeat=L):
             idx += 1
             if idx % ctx.nshards != ctx.shard:
@@ -1046,9 +1382,11 @@ def run_exhaustive(eqsig, ctx):
             n_enum += 1
             nontriv = any(seq)
             n_nt += nontriv
-            case = {'kind': 'exhaustive', 'cls': 'exhaustive', 'values': np.array(seq, dtype=float if idx % 4 else np.int64),
+            dtype = [np.int64, float, float, np.int8][idx % 4]
+            case = {'kind': 'exhaustive', 'cls': 'exhaustive', 'values': np.array(seq, dtype=dtype),
                     'dt': 0.5, 'fracs': EXH_FRACS, 'measures': ['cumabs'], 'k_scale': 0, 'factor': None, 'k_pad': 0,
-                    'thr_specs': [['abs', 0.0], ['abs', 1.0], ['abs', 2.0]], 'container': 'array', 'form': idx % 3}
+                    'thr_specs': [['abs', 0.0], ['abs', 1.0], ['abs', 2.0]], 'container': 'array', 'form': idx % 4,
+                    'layout': [None, None, 'readonly', 'stride', 'reversed'][idx % 5], 'dt_form': 'float', 'repeat': idx % 7 == 0}
             run_case(eqsig, ctx, case)
             if idx % 1500 == 1:
                 ctx.sample({'fn': 'all five functions', 'values': list(seq), 'dt': 0.5, 'fracs': EXH_FRACS, 'thresholds': [0, 1, 2]})
@@ -1056,20 +1394,14 @@ def run_exhaustive(eqsig, ctx):
     ctx.exhaustive['alphabet5_sequences'] = n_enum
 
 
-def run_probes(eqsig, ctx):
-    """Out-of-domain information (never judged): list input to the array-level function."""
-    CURRENT['probe'] = True
-    try:
-        with warnings.catch_warnings():
-            warnings.simplefilter('ignore')
-            for v in ([0.0, 1.0, -2.0, 1.0, 0.5], (1.0, 1.0, 1.0, 1.0)):
-                try:
-                    eqsig.im.calc_sig_dur_vals(v, 0.01)
-                    ctx.observe('probe: calc_sig_dur_vals(%s) returned' % type(v).__name__)
-                except Exception as e:
-                    ctx.observe('probe: calc_sig_dur_vals(%s) raised %s' % (type(v).__name__, type(e).__name__))
-    finally:
-        CURRENT['probe'] = False
+def _register(ctx, case):
+    x = np.asarray(case['values'])
+    ctx.case(_case_digest(case), nontrivial=bool(np.any(x != 0)), cls=case['kind'] + ':' + case['cls'],
+             sample={'kind': case['kind'], 'class': case['cls'], 'n': len(x), 'dtype': str(x.dtype), 'dt': case['dt'],
+                     'fracs': case['fracs'], 'thr_specs': case['thr_specs'], 'measures': case['measures'],
+                     'k_scale': case['k_scale'], 'k_pad': case['k_pad'], 'layout': case.get('layout'),
+                     'history': [o['op'] for o in case.get('history') or []],
+                     'rounds': [[o['op'] for o in r] for r in case.get('rounds') or []], 'head': x[:8]})
 
 
 def run_shard(ctx):
@@ -1077,17 +1409,16 @@ def run_shard(ctx):
     install(ctx)
     warnings.simplefilter('ignore')
     run_exhaustive(eqsig, ctx)
-    if ctx.shard == 0:
-        run_probes(eqsig, ctx)
-    n_cases = (3200 if ctx.tier == 'quick' else 48000) // ctx.nshards
     rng = ctx.rng
+    n_long = (1 if ctx.shard < 4 else 0) if ctx.tier == 'quick' else 3
+    for _ in range(n_long):
+        case = gen_long_case(rng)
+        _register(ctx, case)
+        run_case(eqsig, ctx, case)
+    n_cases = (4000 if ctx.tier == 'quick' else 64000) // ctx.nshards
     for c in range(n_cases):
         case = gen_case(rng, c + ctx.shard)
-        x = np.asarray(case['values'])
-        ctx.case(_case_digest(case), nontrivial=bool(np.any(x != 0)), cls=case['kind'] + ':' + case['cls'],
-                 sample={'kind': case['kind'], 'class': case['cls'], 'n': len(x), 'dt': case['dt'], 'fracs': case['fracs'],
-                         'thr_specs': case['thr_specs'], 'measures': case['measures'], 'k_scale': case['k_scale'],
-                         'k_pad': case['k_pad'], 'history': [o['op'] for o in case.get('history') or []], 'head': x[:8]})
+        _register(ctx, case)
         run_case(eqsig, ctx, case)
         if HARNESS['crash'] or (c % 64 == 0 and ctx.out_of_time()):
             break
